@@ -154,8 +154,14 @@ class Session:
                 r = M.engines.use(parts[1], **kw)
             except M.EngineNotFoundError as e:
                 raise Violation("C13/known-name-refused", f"{where}: use({parts[1]!r}) raised EngineNotFoundError: {e}")
-            info = M.engines.get_available_engines().get(parts[1]) or {"module": KNOWN[parts[1]][0], "class": KNOWN[parts[1]][1]}
-            if type(r).__module__ != info["module"] or type(r).__name__ != info["class"]:
+            except Exception as e:
+                raise Violation("C13/known-name-failed", f"{where}: use({parts[1]!r}, {kw}) raised {type(e).__name__}: {str(e)[:160]}")
+            # the right *kind* of engine (decided by behaviour, not by module path or the registry the
+            # caller may have scribbled on): NumPy engines have no sym_type, CasADi ones have SX / MX
+            from sym_metanet.engines.core import EngineBase
+
+            want = "numpy" if parts[1] == "numpy" else kw.get("sym_type", "SX").lower()
+            if not isinstance(r, EngineBase) or kind_of(r) != want:
                 raise Violation("C13/use-name-wrong-class", f"{where}: use({parts[1]!r}) returned {type(r).__module__}.{type(r).__name__}")
             if parts[1] == "casadi" and r.sym_type is not getattr(cs, kw.get("sym_type", "SX")):
                 raise Violation("C13/use-name-wrong-args", f"{where}: sym_type not honoured")
@@ -281,6 +287,36 @@ class Session:
                     touched_spies.add(kind_of(self.selected))
 
             runner = lambda: dyn.LineSeam(at, action).run(call)  # noqa: E731
+        elif explicit is not None and fault and fault["kind"] == "interrupt":
+            U2, net2 = dyn.build(self.uspec, self.build_ops)
+            ic2 = self.init_for(U2, op, kind)
+            try:
+                total = self.neutral(kind, lambda: max(1, dyn.count_line_events(
+                    lambda: self.full_step(net2, ic2, {"engine": make_engine(kind)}, op["opts"], mode, None))))
+            except Exception:
+                total = 400
+            seam = dyn.LineSeam(1 + int(fault["frac"] * total), dyn.interrupt_action)
+            try:
+                seam.run(call)
+                interrupted = False
+            except core.SimInterrupt:
+                interrupted = True
+            if interrupted:
+                # an explicit-engine step cut anywhere (initialisation or dynamics phase): the
+                # selection must be exactly what the Selector last chose, and the spies untouched
+                self.res.faults["interrupt"] += 1
+                self.res.probes["interrupt_in:" + seam.fired[1]] += 1
+                if M.engines.get_current_engine() is not self.selected or M.engine is not self.selected:
+                    raise Violation("C13/step-changed-selection", f"{where}: after an interrupted explicit-engine step "
+                                    f"(cut in {seam.fired[1]}) the selected engine is no longer the one last selected")
+                hits1 = {k: sum(s.hits.values()) for k, s in self.spies.items()}
+                for k in sorted(touched_spies):
+                    if hits1[k] != hits0[k]:
+                        raise Violation("C13/selected-engine-used-despite-explicit", f"{where}: spy {k} used before the interrupt")
+                self.last_sym = None
+                self.last_step = None
+                return "interrupted"
+            runner = lambda: None  # noqa: E731
         else:
             runner = call
         try:
@@ -443,7 +479,17 @@ class Session:
         if set(d) != set(KNOWN):
             raise Violation("C13/listing-changed", f"op#{i}: get_available_engines() lists {sorted(d)}")
         mut = op["mut"]
-        if mut == "clear":
+        if mut.startswith("nested:"):
+            # edits inside the entries (e.g. shortening the module path for display)
+            for info in list(d.values()):
+                if isinstance(info, dict):
+                    if mut == "nested:module":
+                        info["module"] = str(info.get("module", "")).rsplit(".", 1)[-1]
+                    elif mut == "nested:class":
+                        info["class"] = "Nothing"
+                    else:
+                        info.clear()
+        elif mut == "clear":
             d.clear()
         elif mut.startswith("pop:"):
             d.pop(mut[4:], None)
@@ -551,6 +597,8 @@ def gen_step(rng, cfg, tier, explicit="?"):
     op["zero_d"] = True if (cfg["merging_ramp"] and "delta" in op["opts"]) else rng.random() < 0.3
     if explicit is not None and "switch" in cfg["enabled"] and rng.random() < 0.4:
         op["fault"] = {"kind": "switch", "frac": round(rng.random(), 4), "to": rng.choice(USES)}
+    elif explicit is not None and "interrupt" in cfg["enabled"] and rng.random() < 0.3:
+        op["fault"] = {"kind": "interrupt", "frac": round(rng.random() ** 2, 4)}
     return op
 
 
@@ -563,6 +611,8 @@ def generate(prop: str, run_seed: int, tier: str = "quick") -> dict:
         enabled.add("switch")
     if rng.random() < 0.5:
         enabled.add("garbage")
+    if rng.random() < 0.6:
+        enabled.add("interrupt")
     cfg = {"topology": topo, "enabled": sorted(enabled), "merging_ramp": dyn.has_merging_ramp(topo, U),
            "garbage": rng.choice(["rand", "randn", 3.25]) if "garbage" in enabled else "empty"}
     ops = []
@@ -576,7 +626,7 @@ def generate(prop: str, run_seed: int, tier: str = "quick") -> dict:
         elif r < 0.87:
             ops.append({"op": "compile", "compact": rng.choice([0, 1, 2]), "pt": rng.getrandbits(16)})
         elif r < 0.92:
-            ops.append({"op": "listing", "mut": rng.choice(["clear", "pop:casadi", "pop:numpy", "add:np"])})
+            ops.append({"op": "listing", "mut": rng.choice(["clear", "pop:casadi", "pop:numpy", "add:np", "nested:module", "nested:class", "nested:clear"])})
         elif r < 0.96:
             ops.append({"op": "elem_after", "el": rng.choice([l for _, l, _ in topo["links"]])})
         else:
@@ -612,7 +662,7 @@ TIERS = {
     "C13": {
         "quick": {"runs": 6000, "selftest": 12, "chunk": 100, "wall_cap": 900, "run_timeout": 120},
         "thorough": {"runs": 150000, "selftest": 48, "chunk": 400, "wall_cap": 3300, "run_timeout": 120,
-                     "expect_probes": ["switch_engine", "spy_selected_during_explicit_step", "spy_default_step",
+                     "expect_probes": ["switch_engine", "interrupt", "spy_selected_during_explicit_step", "spy_default_step",
                                        "spy_selected_during_compile", "spy_selected_during_query", "use_bad_refused",
                                        "caller_mutates_listing", "elem_step_with_caller_defined_engine",
                                        "use_name", "use_inst", "use_spy"]
